@@ -316,11 +316,12 @@ func checkFraming(r *vk.Run, idx []int, sc []int, lead, trail int) {
 	}
 	for k, i := range idx {
 		units = append(units, unitAlphabet[i])
-		if sc[k] == 4 {
-			ab = append(ab, 0, 0, 0, 1)
-		} else {
-			ab = append(ab, 0, 0, 1)
+		// sc[k] bytes of start code: two or more zero bytes and 01 (zero bytes beyond the third belong to
+		// no unit: zero_byte / trailing_zero_8bits of the byte-stream format)
+		for z := 1; z < sc[k]; z++ {
+			ab = append(ab, 0)
 		}
+		ab = append(ab, 1)
 		ab = append(ab, unitAlphabet[i]...)
 	}
 	for i := 0; i < trail; i++ {
@@ -677,10 +678,10 @@ func runAll(r *vk.Run, quick bool) {
 		var rec func(k int)
 		rec = func(k int) {
 			if k == n {
-				for scm := 0; scm < 1<<uint(n); scm++ {
+				for scm := 0; scm < 1<<uint(2*n); scm++ {
 					sc := make([]int, n)
 					for j := range sc {
-						sc[j] = 3 + scm>>uint(j)&1
+						sc[j] = 3 + scm>>uint(2*j)&3 // 3..6 bytes
 					}
 					for lead := 0; lead <= 2; lead++ {
 						for trail := 0; trail <= 2; trail++ {
